@@ -28,10 +28,14 @@ from props import C05 as C5
 
 AREA = "Recovery"
 MODULES = ["Arc.Recovery.Props", "Arc.Recovery.Obligations"]
-THEOREMS = [("Arc.Recovery.Props", t) for t in (
-    "C32_live", "C32_live_rows_dir", "C32_replay_guarded", "C32_replay_refuted", "C32_replicated_rows_default",
-    "C32_replicated_refuted", "C32_replicated_rows_fixed", "C32_replicated_raw_guarded",
-    "C32_empty_measurement_unchecked")] + [("Arc.Recovery.Obligations", "C32_deployed_replay_guarded")]
+# primary: the repaired code; then all variants; then the refutations of the old variants
+THEOREMS = [("Arc.Recovery.Obligations", t) for t in (
+    "C32_deployed_live", "C32_deployed_replay_dirs", "C32_deployed_replicated_rows")] + [
+    ("Arc.Recovery.Props", t) for t in (
+        "C32_live_repaired", "C32_replicated_rows_fixed", "C32_live_rows_dir", "C32_replicated_raw_guarded",
+        "C32_live", "C32_replay_guarded")] + [("Arc.Recovery.Obligations", "C32_deployed_replay_guarded")] + [
+    ("Arc.Recovery.Props", t) for t in (
+        "C32_replay_refuted", "C32_replicated_rows_default", "C32_replicated_refuted", "C32_empty_measurement_unchecked")]
 TIE_NAME = ("C32 correspondence (api write handlers + recording RBAC stub + WAL replay + replica ingest handler "
             "vs Arc.Recovery.Model.front/run_case) / Params_Recovery")
 PID = "C32"
@@ -64,6 +68,29 @@ def witness_cases():
     return [(sig, dict(id=900000 + i, events=[dict(e) for e in evs], profile="witness:" + sig)) for i, (sig, evs) in enumerate(out)]
 
 
+def regression_cases():
+    """fixed cases for shapes earlier versions did not exercise; each must satisfy the property"""
+    pol = dict(allow_all=False, allow=[("mydb", "cpu")])
+
+    def msg(p):
+        e = C5._msg(p)
+        e.update(pol)
+        return e
+    st = dict(op="start", repl=True)
+    out = [
+        # {m: cpu, columns, m: disk}: the caller may write cpu only; every consumer must read the LAST m
+        ("duplicate-m-allowed-first", [st, msg(C5._col(("s", b"cpu"), T0, 1, second_m=("s", b"disk"))), dict(op="flush")] + L.RESTART),
+        ("duplicate-m-allowed-last", [st, msg(C5._col(("s", b"disk"), T0, 2, second_m=("s", b"cpu"))), dict(op="flush")] + L.RESTART),
+        ("duplicate-m-map16", [st, msg(C5._col(("s", b"cpu"), T0, 3, width="16", second_m=("s", b"mem"))), dict(op="flush")] + L.RESTART),
+        ("duplicate-columns", [st, msg(("m", [(b"columns", ("m", [(b"time", ("a", [("i", T0)])), (b"a", ("a", [("i", 1)]))])),
+                                               (b"m", ("s", b"cpu")),
+                                               (b"columns", ("m", [(b"time", ("a", [("i", T0 + 9)])), (b"b", ("a", [("i", 2)]))]))])),
+                               dict(op="flush")] + L.RESTART),
+    ]
+    return [dict(id=800000 + i, events=[dict(e) for e in evs], profile="regression:" + name, policy=pol["allow"])
+            for i, (name, evs) in enumerate(out)]
+
+
 def has_routing_name(case):
     names = set(L.ROUTING)
     for e in case["events"]:
@@ -78,6 +105,7 @@ def has_routing_name(case):
             def walk(v, depth=0):
                 if isinstance(v, tuple) and v[0] == "m":
                     for k, x in v[1]:
+                        k = L.key_bytes(k)
                         if (k in names and depth > 0) or (k in (b"database", b"_database", b"measurement", b"_measurement") and depth == 0):
                             return True
                         if walk(x, depth + 1):
@@ -126,7 +154,8 @@ def gen_case(rng, cid):
             item = L.gen_columnar_item(rng, 0.5, False, 0.1, 0.0, 0.0, meas_pool=[b""])
             req = dict(kind="msg", hdb=db or None, payload=item if rng.random() < 0.5 else ("a", [item]), shape="col")
         else:
-            req = L.gen_request(rng, db or None, routing_p=0.7, wild_ts=False, mixed_p=0.0, int_m_p=0.05, meas_pool=pool)
+            req = L.gen_request(rng, db or None, routing_p=0.7, wild_ts=False, mixed_p=0.0, int_m_p=0.05, meas_pool=pool,
+                                wire_p=0.25, dup_p=0.2)
         if req["kind"] == "lp" and not db:
             req["hdb"] = None
         evs.append(dict(op="write", allow_all=False, allow=allow, req=req))
@@ -199,7 +228,7 @@ def run(res, tier, seed):
 
     n = 420 if tier == "quick" else 6000
     wit = witness_cases()
-    cases = [c for _, c in wit] + [gen_case(rng, i) for i in range(n)]
+    cases = [c for _, c in wit] + regression_cases() + [gen_case(rng, i) for i in range(n)]
     t1 = time.time()
     obs, codes = [], []
     for off in range(0, len(cases), 400):
@@ -236,7 +265,7 @@ def run(res, tier, seed):
     }
     res.cov["samples"] = [dict(L.case_summary(cases[i], obs[i]), policy=cases[i].get("policy"),
                                checked=obs[i]["checked"], replica_dirs=sorted({r["dir"] for r in obs[i]["replica"]}))
-                          for i in supported[len(wit):len(wit) + 2]]
+                          for i in [k for k in supported if cases[k]["id"] < 800000][:2]]
 
     widx = {c["id"]: k for k, c in enumerate(cases)}
     for sig, c in wit:
@@ -267,8 +296,12 @@ def run(res, tier, seed):
                       {"kind": "oracle", "case": L.case_to_json(small), "observed": o2[0], "model_agrees": bool(c2[0] & 2),
                        "how_to_replay": "python3 tools/check.py C32 --replay <this file>"})
     if dis:
-        k = min(dis, key=lambda i: (len(cases[i]["events"]), i))
-        small = shrink(cases[k], variant, lambda c: _still(c, variant, lambda code, c2, o2: (code & 1) and not (code & 2)))
+        # prefer a disagreement on which the property itself fails on the implementation's output
+        bad = [i for i in dis if not codes[i] & 8]
+        k = min(bad or dis, key=lambda i: (len(cases[i]["events"]), i))
+        want_oracle = bool(bad)
+        small = shrink(cases[k], variant, lambda c: _still(c, variant, lambda code, c2, o2: (code & 1) and not (code & 2) and
+                                                           (not want_oracle or not (code & 8))))
         o2, c2 = evaluate([small], variant, "shrunk")
         oracle_fails = not (c2[0] & 8)
         res.violation("model and implementation disagree on a request history (%d cases)" % len(dis),
